@@ -6,7 +6,7 @@ from .dslgen import S, T
 
 TYPE_POOL = ["user", "group", "doc", "folder", "org", "team", "project", "repo", "wiki", "page", "doc_x", "user2"]
 REL_POOL = ["member", "viewer", "editor", "owner", "parent", "admin", "viewer_x", "e", "fin", "view", "can_view"]
-COND_POOL = ["cond", "cond_x", "in_window", "is_valid", "c1"]
+COND_POOL = ["cond", "cond_x", "in_window", "is_valid", "c1", "Zone_check", "In_window"]
 MODULES = ["core", "wiki", "issues", "m1", "m2"]
 
 
@@ -60,7 +60,8 @@ def gen_set(rng, conflict=None):
 
 CONFLICTS = ["duplicate-type", "duplicate-type-same-file", "duplicate-condition", "extend-missing",
              "duplicate-relation-base", "duplicate-relation-two-extensions", "model-header", "model-header-with-condition",
-             "syntax-error", "extended-twice-in-file", "define-and-extend-same-file-ok", "two-extend-relationless-ok"]
+             "syntax-error", "extended-twice-in-file", "define-and-extend-same-file-ok", "two-extend-relationless-ok",
+             "blank-file"]
 
 
 def inject(rng, files, names, conds, kind):
@@ -135,6 +136,12 @@ def inject(rng, files, names, conds, kind):
     if kind == "syntax-error":
         rng.choice(files)["broken"] = "syntax"
         return {"kind": kind, "conflict": True}
+    if kind == "blank-file":
+        # a file with no content at all (empty, white space only, a comment only) is not a module
+        f = {"name": "blank%d.fga" % rng.randrange(100), "module": "none", "decls": [],
+             "broken": rng.choice(["blank", "blank", "comment-only"])}
+        files.insert(rng.randrange(len(files) + 1), f)
+        return {"kind": kind, "conflict": True}
     if kind == "extended-twice-in-file":
         cands = [(f, d) for f in files for d in f["decls"] if d[0] == "extend"]
         if not cands:
@@ -173,6 +180,10 @@ def inject(rng, files, names, conds, kind):
 
 def render(rng, f, wild=0.0):
     """-> (text, positions) ; positions: list of (kind, type-or-None, name, line, col) for every declaration name"""
+    if f["broken"] == "blank":
+        return rng.choice(["", "\n", "  \n\n", "\t\n", " ", "\n\n\n"]), []
+    if f["broken"] == "comment-only":
+        return rng.choice(["# nothing here\n", "# a\n# b", "\n# module x\n"]), []
     L = dslgen.Layout(rng, wild=wild, crlf=False, comments=0.0)
     lines = []
     pos = []
